@@ -15,12 +15,19 @@ VARIABLES inp, det, sz, c, phase, out, steps
 vars == <<inp, det, sz, c, phase, out, steps>>
 
 Edges   == (SUBSET Node) \ {{}}
-DirKeys == {Key(s, t, 0) : s \in Edges, t \in Edges} \cap {k \in [s : Edges, t : Edges, x : {0}] : k.s \cap k.t = {}}
+DirKeys == {k \in [s : Edges, t : Edges, x : {0}] : k.s \cap k.t = {}}
 Sizes   == 1..Cardinality(Node)
 Unbounded == MaxSteps = 0
 
 RECURSIVE SeqOf(_)
 SeqOf(S) == IF S = {} THEN <<>> ELSE LET x == CHOOSE y \in S : TRUE IN <<x>> \o SeqOf(S \ {x})
+\* all subsets of S with 2..MaxEdges elements (without enumerating SUBSET S)
+RECURSIVE KSubsets(_, _)
+KSubsets(S, k) ==
+  IF k = 0 THEN {{}} ELSE IF S = {} THEN {}
+  ELSE LET x == CHOOSE y \in S : TRUE
+       IN KSubsets(S \ {x}, k) \cup {A \cup {x} : A \in KSubsets(S \ {x}, k - 1)}
+Inputs(S) == UNION {KSubsets(S, k) : k \in 2..MaxEdges}
 Perms(S) == {f \in [1..Cardinality(S) -> S] : \A a, b \in DOMAIN f : a # b => f[a] # f[b]}
 
 (* --- the loop of the code computes exactly the relation (checked once, for all pairs) --- *)
@@ -39,11 +46,11 @@ Init ==
   /\ phase = IF Kind = "hg" THEN "chain" ELSE "src"
   /\ out = {} /\ steps = 0
   /\ IF Kind = "hg"
-     THEN /\ inp \in {H \in SUBSET Edges : 2 <= Cardinality(H) /\ Cardinality(H) <= MaxEdges}
+     THEN /\ inp \in Inputs(Edges)
           /\ det \in BOOLEAN
           /\ sz \in {0} \cup {Cardinality(e) : e \in inp}
           /\ c = SeqOf(Selected(inp, sz))
-     ELSE /\ inp \in {H \in SUBSET DirKeys : 2 <= Cardinality(H) /\ Cardinality(H) <= MaxEdges}
+     ELSE /\ inp \in Inputs(DirKeys)
           /\ det = TRUE /\ sz = 0
           /\ c = SeqOf({[s |-> k.s, t |-> k.t] : k \in inp})
 
